@@ -39,6 +39,9 @@ def edge_values(rng, c):
     if c['ctor'] in ('capacitor',) and r < 0.1:
         a['C'] = 0.0
         return 'edge'
+    if c['ctor'] == 'impedance' and r < 0.08 and isinstance(a.get('Z'), list):
+        a['Z'] = [a['Z'][0], rng.choice([math.inf, -math.inf])]      # an ideal open branch written as an infinite reactance: R + j inf
+        return 'edge'
     if c['ctor'] in ('inductance',) and r < 0.1:
         a['L'] = 0.0
         return 'edge'
@@ -106,6 +109,18 @@ def judge(case, ctx, prefix='C07'):
         ctx.violation(f'{prefix}/ground-node', f'Circuit.ground_node = {circ.ground_node!r}, expected {g!r}', {})
     expected_ids = [c['id'] for c in cd['components'] if c['ctor'] != 'ground']
     has_ground = any(c['ctor'] == 'ground' for c in cd['components'])
+    if len(expected_ids) % 5 == 0:
+        # 'no component is ever silently omitted' also holds for a component of a kind the conversion table does not know: such a
+        # circuit is refused, or the component still shows up as a branch - with or without a ground symbol in the list
+        from CircuitCalculator.Circuit.components import Component
+        from CircuitCalculator.Circuit.circuit import Circuit
+        pos = len(expected_ids) % (len(circ.components) + 1)
+        odd = Component(type='transistor', id='__odd__', nodes=(circ.components[0].nodes[0], circ.components[-1].nodes[0]), value={})
+        comps2 = list(circ.components); comps2.insert(pos, odd)
+        r = call(lambda: cmod.transform_circuit(Circuit(comps2), 0.0))
+        ctx.count('circuits_with_a_component_of_unknown_kind')
+        if not raised(r) and '__odd__' not in [b.id for b in r.branches]:
+            ctx.violation(f'{prefix}/branch-set/omitted:unknown-kind/{"with-ground" if has_ground else "no-ground"}', f'a component of unknown kind at position {pos} was accepted and left out of the network {[b.id for b in r.branches]!r}', {})
     nets = call(cmod.transform, circ, [w for _, w in case['ws']], w_res)
     for k, (wcls, w) in enumerate(case['ws']):
         net = call(cmod.transform_circuit, circ, w, w_res)
